@@ -605,6 +605,7 @@ Section Driver.
       (if negb send_only && N.ltb (N.shiftr (d_in0 d) 1) 6 then flush_rx else ret tt) ;;;
       clear_status_flags true true true ;;;
       set_ce true ;;;
+      update ;;;
       wait_flags fuel ;;;
       d <- get ;;
       let result := st_bit d 32 in
@@ -637,9 +638,13 @@ Section Driver.
     d <- get ;;
     r <- force_retries force_retry send_only fuel (SBool (st_bit d 32)) ;;
     d <- get ;;
-    if (N.land (d_in0 d) 96 =? 96)%N && negb send_only then
-      p <- read None ;; ret (SPayload p)
-    else ret r.
+    match r with
+    | SBool true =>
+      if (N.land (d_in0 d) 96 =? 96)%N && negb send_only then
+        p <- read None ;; ret (SPayload p)
+      else ret r
+    | _ => ret r
+    end.
 
   Fixpoint send_list (bufs : list (list N)) (ask_no_ack : bool) (force_retry : nat)
            (send_only : bool) (fuel : nat) : M (list sendres) :=
